@@ -52,7 +52,10 @@ pub fn c03_k_small_scalars() {
     let b: bool = kani::any();
     let mut buf2 = [0u8; 4];
     let out2 = cbor_serialize(&b, &mut buf2).unwrap();
-    assert!(out2.len() == 1 && out2[0] == if b { 0xF5 } else { 0xF4 }, "C03: bool encoding");
+    assert!(
+        out2.len() == 1 && out2[0] == if b { 0xF5 } else { 0xF4 },
+        "C03: bool encoding"
+    );
     let u: usize = kani::any();
     let mut buf3 = [0u8; 16];
     let out3 = cbor_serialize(&u, &mut buf3).unwrap();
@@ -66,14 +69,26 @@ fn bytes_case<const CAP: usize>(n: usize) {
     let data: [u8; CAP] = kani::any();
     let mut buf = [0u8; 304];
     let out = cbor_serialize(serde_bytes::Bytes::new(&data[..n]), &mut buf).unwrap();
-    let hl = if n < 24 { 1 } else if n < 256 { 2 } else { 3 };
+    let hl = if n < 24 {
+        1
+    } else if n < 256 {
+        2
+    } else {
+        3
+    };
     assert!(out.len() == hl + n, "C03: byte string length");
     if n < 24 {
         assert!(out[0] == 0x40 | n as u8, "C03: byte string head");
     } else if n < 256 {
-        assert!(out[0] == 0x58 && out[1] == n as u8, "C03: byte string head (1-byte length)");
+        assert!(
+            out[0] == 0x58 && out[1] == n as u8,
+            "C03: byte string head (1-byte length)"
+        );
     } else {
-        assert!(out[0] == 0x59 && out[1] == (n >> 8) as u8 && out[2] == n as u8, "C03: byte string head (2-byte length)");
+        assert!(
+            out[0] == 0x59 && out[1] == (n >> 8) as u8 && out[2] == n as u8,
+            "C03: byte string head (2-byte length)"
+        );
     }
     let k: usize = kani::any();
     kani::assume(k < n);
